@@ -56,6 +56,15 @@ CLAIMED["C06"] = dict(
     technique="TLC listener-machine model (loop = textual unrolling as a spec equality) + replay of loop and unrolled scripts into the real loader",
     design="7/C06")
 
+CLAIMED["C05"] = dict(
+    text="The declaration actions of the listener machine (ExitExpressionvar / ExitArrayvar) state the property: declared kind, element (r, c) = c-th "
+         "entry of the r-th written row, declared dtype and shape, ragged rows and contradicting shapes refused, A[k] row-major. TLC enumerates every "
+         "array with 1..3 rows of 1..3 entries (all ragged combinations), 5 bare-parameter patterns, 5 shape forms, scalars of every type and readers "
+         "A[k]; each script is loaded by the real code and program.variables (kind, dtype, shape, every element) and the read arguments are compared.",
+    note="Trusted: TLC, renderer (self-checked). Out-of-range/negative indices and lossy conversions (int x = 2.7) are outside the property.",
+    technique="TLC-enumerated declarations on the listener-machine model replayed into the real loader",
+    design="7/C05")
+
 NOT_YET = {}
 
 
